@@ -148,9 +148,22 @@ def rule_pixel_pipeline(ck, m, rid):
     from rules.common import IN_PLACE as _INPL
     FRESH_ = {"convert", "resize", "copy", "new", "crop", "transpose", "getchannel", "point", "open", "frombytes", "fromarray", "quantize", "reduce"}
     n_meta = 0
-    for fn_ in fns:
+    # ... nor is the image object itself modified (draft / paste / putalpha / thumbnail ... on an image that can be the source): the renderers get
+    # from _get_render_data either a fresh image or - when no conversion / resize was needed - the source object itself
+    IMG_MUT = {"draft", "paste", "putalpha", "putdata", "putpixel", "putpalette", "thumbnail", "alpha_composite", "frombytes", "apply_transparency", "convert_alpha", "rotate_inplace"}
+    rimgs = [fn2 for _r2, q2, fn2 in m.functions() if q2.endswith("._render_image") and _r2.startswith("image/")]
+    for fn_ in fns + rimgs:
         for x in body_walk(fn_):
             recv = None
+            if isinstance(x, ast.Call) and isinstance(x.func, ast.Attribute) and x.func.attr in IMG_MUT and isinstance(x.func.value, ast.Name) and x.func.value.id not in ("self", "cls"):
+                tr0 = trace(fn_, x.func.value, use=x)
+                fresh0 = isinstance(tr0, ast.Call) and ((isinstance(tr0.func, ast.Attribute) and tr0.func.attr in FRESH_) or norm(tr0.func) in ("Image.new", "PIL.Image.new", "Image.frombytes", "PIL.Image.frombytes"))
+                src0 = (isinstance(tr0, ast.Name) and tr0.id in ("img", "frame_img")) or "_get_render_data(" in norm(tr0) or "_get_image(" in norm(tr0)
+                if src0 and not fresh0:
+                    n_meta += 1
+                    ck.ob(rid, enclosing_stmt(x), False, f"`{short(x, 60)}` modifies `{x.func.value.id}` in place, which can be the source image itself (`{short(tr0, 50)}`; _get_render_data returns the source object when no "
+                          "conversion or resize was needed): every later render of the same image then starts from modified pixels / a reduced decode", stmt=f"{fn_.name}: source image not modified in place: {short(x, 40)}")
+                continue
             if isinstance(x, ast.Call) and isinstance(x.func, ast.Attribute) and x.func.attr in _INPL and isinstance(x.func.value, (ast.Attribute, ast.Subscript)):
                 recv = x.func.value
             elif isinstance(x, (ast.Subscript, ast.Attribute)) and isinstance(x.ctx, (ast.Store, ast.Del)) and isinstance(x.value, (ast.Attribute, ast.Subscript)):
@@ -227,13 +240,17 @@ def rule_pixel_pipeline(ck, m, rid):
             ck.ob(rid, enclosing_stmt(c), p is None and bool(conv_tests),
                   f"`{short(c, 50)}` can run before the image has been brought to the target mode ({fmt_path(p) if p else 'no mode test'}): PIL resamples palette/bilevel modes with NEAREST and "
                   "averages CMYK/HSV/premultiplied-alpha components, so the half-cell colours are no longer the BOX average of the converted pixels", stmt="pixel pipeline: convert to the target mode before resizing")
-            ck.ob(rid, enclosing_stmt(c), len(c.args) >= 2 and norm(c.args[0]) == "size" and norm(c.args[1]).endswith("BOX"), f"the image must be resized to exactly `size` with BOX resampling; found `{short(c, 60)}`", stmt="pixel pipeline: resize(size, BOX)")
+            extra_kw = [k_.arg for k_ in c.keywords if k_.arg not in ("size", "resample")] + [norm(a_) for a_ in c.args[2:]]
+            ck.ob(rid, enclosing_stmt(c), len(c.args) >= 2 and norm(c.args[0]) == "size" and norm(c.args[1]).endswith("BOX") and not extra_kw,
+                  f"the image must be resized to exactly `size` with BOX resampling of the whole image in one step (no box=, reducing_gap=: a two-step reduction is not the box average); found `{short(c, 70)}`", stmt="pixel pipeline: resize(size, BOX)")
     ck.expect(n_resize >= 1, "_get_render_data: no resize step found")
 
 
 def run(ck, m):
     from rules.common import rule_memo_safety
     rule_memo_safety(ck, m, "MEMO", "C02")          # first: a memoised helper also hides the code it wraps from the rules below
+    from rules.common import rule_stateless_renderers
+    rule_stateless_renderers(ck, m, "MEMO")
     br = m.get(BL, "BlockImage._render_image")
     ub = m.get(BL, "BlockImage._render_image.update_buffer")
     # roles of the three cell glyphs (the names the rules are written with): the variables update_buffer multiplies by the run length, classified by what
